@@ -896,6 +896,58 @@ theorem step_closed (cfg : Cfg) (s : St) (i : In) (hc : s.closed = true) :
   | event ev soOk c h rs ws => simp [step, onSession, hc]
 
 
+/-! ## T3: a fair environment drains the queue -/
+
+/-- every queued buffer is non-empty (true of the engine: `send` does not enqueue `n == 0`, tails are non-empty) -/
+def NonEmptyBufs (q : List Bytes) : Prop := ∀ d ∈ q, d ≠ []
+
+theorem writeLoop_nonEmpty (ssl : Bool) : ∀ (q : List Bytes) (as : List WAns), NonEmptyBufs q →
+    NonEmptyBufs (writeLoop ssl q as).wq
+  | [], _, _ => by simp [writeLoop, NonEmptyBufs]
+  | d :: rest, as, h => by
+    have hrest : NonEmptyBufs rest := fun x hx => h x (by simp [hx])
+    unfold writeLoop
+    simp only
+    split
+    · rename_i n _
+      split
+      · rename_i hn
+        intro x hx
+        simp only [List.mem_cons] at hx
+        rcases hx with hx | hx
+        · subst hx
+          intro he
+          have := congrArg List.length he
+          simp [List.length_drop] at this
+          omega
+        · exact hrest x hx
+      · exact writeLoop_nonEmpty ssl rest as.tail hrest
+    · exact h
+    · exact h
+
+@[simp] theorem cn_connectPending (s : St) (w : Why) : (closeNow s w).1.connectPending = s.connectPending := by
+  unfold closeNow; split <;> rfl
+
+@[simp] theorem writePending_connectPending (cfg : Cfg) (s : St) (ws : List WAns) :
+    (writePending cfg s ws).1.connectPending = s.connectPending := by
+  unfold writePending
+  simp only
+  split
+  · simp
+  · rfl
+  · rfl
+  · rfl
+
+theorem writePending_wq (cfg : Cfg) (s : St) (ws : List WAns) (hc : (writePending cfg s ws).1.closed = false) :
+    (writePending cfg s ws).1.wq = (writeLoop (s.tls == .open) s.wq ws).wq := by
+  unfold writePending at hc ⊢
+  simp only at hc ⊢
+  split at hc <;> rename_i hst <;> simp only [hst]
+  · simp at hc
+  · rfl
+  · rfl
+  · rfl
+
 /-! ## T5: the command queue under `_cmdMutex` -/
 namespace Enq
 
